@@ -962,6 +962,42 @@ def zaddCmp (f : ZSet → Bytes → F64 → ZSet × Bool) (s : MState) (now : In
 def zaddLT := zaddCmp DsZSet.zAddLT
 def zaddGT := zaddCmp DsZSet.zAddGT
 
+/-- the loop state of `zAddPairs`: the sorted set, the two counters and the records to emit -/
+structure ZAcc where
+  z : ZSet
+  added : Int
+  changed : Int
+  ops : List (Bytes × F64)
+
+/-- one turn of the loop of `zAddPairs` (Redis' option rules): a member that is there is skipped under NX, when the
+    score is (IEEE-)equal, under GT unless greater, under LT unless less - else updated; a member that is not there
+    is skipped under XX - else added -/
+def zaddStep (nx xx gt lt : Bool) (a : ZAcc) (p : Bytes × F64) : ZAcc :=
+  match DsZSet.zScore a.z p.1 with
+  | some old =>
+    if nx || F64.eq p.2 old || (gt && !(F64.gt p.2 old)) || (lt && !(F64.lt p.2 old)) then a
+    else { z := (DsZSet.zAdd a.z p.1 p.2).1, added := a.added, changed := a.changed + 1, ops := a.ops ++ [p] }
+  | none =>
+    if xx then a
+    else { z := (DsZSet.zAdd a.z p.1 p.2).1, added := a.added + 1, changed := a.changed, ops := a.ops ++ [p] }
+
+/-- zAddPairs (unexported; the ZADD command): all pairs in ONE transaction; XX never creates the key; the key is
+    signalled once and one ZADD record per written member is emitted - nothing of both when nothing was written -/
+def zaddPairs (s : MState) (now : Int) (key : Bytes) (nx xx gt lt ch : Bool) (pairs : List (Bytes × F64)) : R :=
+  if pairs.isEmpty then (s, .int 0) else
+  let (s, ok) := writeKey s now key (if xx then none else some (.zset DsZSet.empty))
+  if xx && !ok then (s, .int 0) else
+  match asZSet s key with
+  | none => (s, .panic)
+  | some z =>
+    let a := pairs.foldl (zaddStep nx xx gt lt) { z := z, added := 0, changed := 0, ops := [] }
+    let reply : Int := if ch then a.added + a.changed else a.added
+    if a.ops.isEmpty then (s, .int reply) else
+    let s := setVal s key (.zset a.z)
+    let s := signal s key
+    let s := a.ops.foldl (fun s p => emit s (opZAdd key p.1 p.2)) s
+    (s, .int reply)
+
 def zread (f : ZSet → Out) (dflt : Out) (s : MState) (now : Int) (key : Bytes) : R :=
   let (s, ok) := readKey s now key
   if !ok then (s, dflt) else
